@@ -35,6 +35,44 @@ def loader_view(o, extra_cols):
     return d
 
 
+def declared_kinds(o):
+    """numpy dtype kind a SUPPLIED column of that name is converted to (interface._convert_data_to_correct_types:
+    the rule's return annotation, element type for array rules)"""
+    import datetime
+    import typing
+
+    from _gettsim.functions_loader import _load_functions
+    from _gettsim.policy_environment import load_functions_for_date
+    out = {}
+    for name, f in _load_functions(load_functions_for_date(datetime.date.fromordinal(o))).items():
+        t = getattr(f, "__annotations__", {}).get("return")
+        args = typing.get_args(t)
+        if args:
+            t = args[0]
+        k = {float: "f", int: "i", bool: "b"}.get(t)
+        if k:
+            out[name] = k
+    return out
+
+
+def big_family_population(rnd, year, n_hh):
+    """a population in which some Kindergeld recipient has at least four children"""
+    best = None
+    for _ in range(60):
+        pop = popgen.population(rnd, year, n_hh, templates=["couple_kids", "couple_kids", "single_parent", "patchwork", "married", "single"],
+                                id_style="sparse")
+        cnt = {}
+        for p in pop:
+            if p["p_id_kindergeld_empf"] >= 0:
+                cnt[p["p_id_kindergeld_empf"]] = cnt.get(p["p_id_kindergeld_empf"], 0) + 1
+        m = max(cnt.values(), default=0)
+        if best is None or m > best[0]:
+            best = (m, pop)
+        if m >= 4:
+            break
+    return best[1]
+
+
 def run(ctx, res):
     impl.setup()
     import warnings
@@ -54,7 +92,10 @@ def run(ctx, res):
         year = int(impl.iso(o)[:4])
         nodes = metam.default_nodes(d)
         tg = [t for t in d["targets"] if t in nodes]
-        df = popgen.to_frame(popgen.population(rnd, year, 8 if ctx.tier == "quick" else 14, id_style="sparse"))
+        df = popgen.to_frame(popgen.population(rnd, year, 6 if ctx.tier == "quick" else 12, id_style="sparse")
+                             + [dict(p, p_id=p["p_id"] + 100000, hh_id=p["hh_id"] + 100000,
+                                     **{k: (p[k] + 100000 if p[k] >= 0 else -1) for k in p if k.startswith("p_id_")})
+                                for p in big_family_population(rnd, year, 3)])
         df = df.sample(frac=1.0, random_state=rnd.randrange(10**6)).reset_index(drop=True)
         try:
             base, _ = engine.simulate(df, o, targets=nodes)
@@ -63,6 +104,11 @@ def run(ctx, res):
             continue
         keys = list(df["p_id"])
         pick = nodes if ctx.tier == "thorough" else rnd.sample(nodes, min(len(nodes), 40))
+        # nodes whose computed dtype is not the type a supplied column is converted to are always tried
+        dk = declared_kinds(o)
+        mism = [n for n in nodes if n in dk and base[n].dtype.kind in "fib" and base[n].dtype.kind != dk[n]]
+        stats.setdefault("dtype_differs_from_declared", {})[impl.iso(o)] = mism[:20]
+        pick = list(dict.fromkeys(mism + pick))
         for n in pick:
             data2 = df.copy()
             data2[n] = base[n].to_numpy()
@@ -125,7 +171,7 @@ def run(ctx, res):
     res.rule = ("per date: one run with every node of the default targets' graph as target; then for 40 sampled nodes (thorough: every node) the "
                 "node's computed column is added to the data and all default targets are recomputed: each must equal the first run "
                 "(bit-identical counted; ids up to renumbering; floats within 1e-9 otherwise a violation), and the override must be "
-                "announced by a warning naming the column. Loader view: the graph the real loader builds with the column supplied equals the "
+                "announced by a warning naming the column; nodes whose computed dtype differs from the declared type a supplied column is converted to are always included, and every population contains a Kindergeld recipient with four or more children. Loader view: the graph the real loader builds with the column supplied equals the "
                 "original graph minus that node. distinct = distinct (date, node) overrides.")
 
 
